@@ -1,6 +1,6 @@
 //! C12 — Sequences: accepted sets are unambiguous; a typed sequence fires its key once.
 use crate::engine::*;
-use crate::sim::{code_of, fmt_outs, OsState, OutEv, Sim};
+use crate::sim::{out_name, code_of, fmt_outs, OsState, OutEv, Sim};
 use kanata_parser::trie::GetOrDescendentExistsResult;
 use proptest::prelude::*;
 use serde_json::{json, Value};
@@ -353,6 +353,9 @@ fn judge_case(c: &SCase) -> Verdict {
     // scenario parameters
     let n_chars = chars.len();
     let last_char_step = *chars.last().unwrap();
+    if c.scenario == 5 && n_chars < 2 {
+        return Verdict::discard("two-session-scenario-needs-a-proper-prefix");
+    }
     let (cut_at, pause_before_last): (Option<usize>, Option<u64>) = match c.scenario {
         1 if n_chars >= 2 => {
             // cut after `k` characters (1 <= k < n): the steps before the (k+1)-th character key
@@ -413,6 +416,59 @@ fn judge_case(c: &SCase) -> Verdict {
         sim.release(k);
         sim.tick_n(2);
     }
+    if cut_at.is_some() {
+        // the key that continues no sequence has ended sequence mode: the whole sequence typed
+        // now, without the leader, is ordinary typing
+        for st in steps.iter() {
+            match st {
+                Step::Down(k) => sim.press(*k),
+                Step::Up(k) => sim.release(*k),
+            }
+            sim.tick_n(1);
+        }
+    }
+    // second session (scenario 5): after the completed sequence, the leader again, a proper
+    // prefix and a key that continues no sequence
+    let mut second_session_from: Option<usize> = None;
+    let mut second_session_chars: Vec<u16> = vec![];
+    if c.scenario == 5 {
+        sim.tick_n(t + 20);
+        sim.press(code_of("l"));
+        sim.tick_n(1);
+        sim.release(code_of("l"));
+        sim.tick_n(1);
+        second_session_from = Some(sim.outs.len() - start_out);
+        let k = 1 + pick(c.cut, n_chars - 1);
+        let mut down2: Vec<u16> = vec![];
+        for (i, st) in steps.iter().enumerate() {
+            if i == chars[k] {
+                break;
+            }
+            match st {
+                Step::Down(kc) => {
+                    sim.press(*kc);
+                    down2.push(*kc);
+                    if chars.contains(&i) {
+                        second_session_chars.push(*kc);
+                    }
+                }
+                Step::Up(kc) => {
+                    sim.release(*kc);
+                    down2.retain(|d| d != kc);
+                }
+            }
+            sim.tick_n(1);
+        }
+        for kc in down2 {
+            sim.release(kc);
+            sim.tick_n(2);
+        }
+        sim.press(code_of("x"));
+        sim.tick_n(2);
+        sim.release(code_of("x"));
+        sim.tick_n(2);
+        second_session_chars.push(code_of("x"));
+    }
     sim.tick_n(t + 20);
     let outs = sim.outs[start_out..].to_vec();
     let vk_codes: Vec<u16> = VK_OUT.iter().map(|n| code_of(n)).collect();
@@ -429,7 +485,7 @@ fn judge_case(c: &SCase) -> Verdict {
     if matches!(c.scenario, 2 | 3 | 4) && (n_chars < 2 || steps.iter().take(last_char_step).all(|s| matches!(s, Step::Up(_)))) {
         return Verdict::discard("pause-scenario-needs-two-presses");
     }
-    let scen = ["full", "prefix-then-other-key", "pause T-1", "pause T", "pause T+1"][c.scenario as usize % 5];
+    let scen = ["full", "prefix-then-other-key-then-full-without-leader", "pause T-1", "pause T", "pause T+1", "full, then leader + prefix + other key"][c.scenario as usize % 6];
     let describe = || format!("{text}typed sequence #{which} {:?} ({scen}, {} hand, mode {}): output {}", seq.iter().map(item_text).collect::<Vec<_>>(), if c.right_hand { "right" } else { "left" }, c.mode, fmt_outs(&outs));
     // F35: an O- group followed by further items cannot be completed when another
     // sequence starts with the same keys, in the typed order, as plain (non-overlapping)
@@ -491,6 +547,19 @@ fn judge_case(c: &SCase) -> Verdict {
     if os.anything_down() {
         return Verdict::failed("mismatch:sequence-key-left-down", format!("{}\nstill down: {:?}", describe(), os.keys));
     }
+    if let Some(from) = second_session_from {
+        if c.mode % 3 == 2 {
+            // hidden-delay-type: a failed sequence types what was typed in it - in this session
+            let char_codes: Vec<u16> = KEYS.iter().map(|k| code_of(k)).chain([code_of("x")]).collect();
+            let typed_back: Vec<u16> = outs[from..].iter().filter_map(|o| match o.ev { OutEv::Down(k) if char_codes.contains(&k) => Some(k), _ => None }).collect();
+            if typed_back != second_session_chars {
+                return Verdict::failed(
+                    "mismatch:delay-type-types-other-than-this-session",
+                    format!("{}\nthe failed second session typed {:?}, the output has {:?}", describe(), second_session_chars.iter().map(|k| out_name(*k)).collect::<Vec<_>>(), typed_back.iter().map(|k| out_name(*k)).collect::<Vec<_>>()),
+                );
+            }
+        }
+    }
     if expect_fire && c.scenario == 0 {
         let typed_codes: Vec<u16> = KEYS.iter().map(|k| code_of(k)).chain(["lsft", "rsft", "lctl", "rctl", "lalt", "ralt", "lmet", "rmet"].iter().map(|k| code_of(k))).collect();
         let first_vk = outs.iter().position(|o| matches!(o.ev, OutEv::Down(k) if vk_codes.contains(&k))).unwrap_or(outs.len());
@@ -509,12 +578,13 @@ fn judge_case(c: &SCase) -> Verdict {
             }
         }
     }
-    v.classes.push(match c.scenario % 5 {
+    v.classes.push(match c.scenario % 6 {
         0 => "typed-full",
         1 => "typed-prefix-then-other",
         2 => "pause-T-1",
         3 => "pause-T",
-        _ => "pause-T+1",
+        4 => "pause-T+1",
+        _ => "two-sessions",
     });
     if has_overlap {
         v.classes.push("overlap-group");
@@ -557,7 +627,7 @@ impl TypedProp for C12 {
     fn info(&self) -> PropInfo {
         PropInfo {
             level: "exploration",
-            rule: "tables: 1-5 defseq sequences of 1-4 items over keys a-d: plain keys, chorded keys with every modifier prefix (S- C- A- M- RA- RS- RC- RM-), chorded groups, O-(..) groups of 2-4 keys; input modes visible-backspaced / hidden-suppressed / hidden-delay-type, sequence-always-on, timeouts {10,50}. Oracle (i): the harness encodes every sequence and every O- permutation itself (documented bit layout) and decides prefix-freedom: the parser must accept iff prefix-free, and the compiled table must answer HasValue(the right virtual key) for every encoding and InTrie for every proper prefix. Oracle (ii): for an accepted table one sequence is typed physically (every O- order, left- or right-hand modifier): fully => its virtual key exactly once, no other, sequence mode left, nothing down; hidden modes press no typed key, visible-backspaced sends one backspace per typed character; a proper prefix followed by a key in no sequence => no virtual key; a pause of T-1 ms between two key presses still completes, T and T+1 do not. Non-trivial: >= 2 sequences share a first key, or an O- group occurs. Distinct: hash of the case.",
+            rule: "tables: 1-5 defseq sequences of 1-4 items over keys a-d: plain keys, chorded keys with every modifier prefix (S- C- A- M- RA- RS- RC- RM-), chorded groups, O-(..) groups of 2-4 keys; input modes visible-backspaced / hidden-suppressed / hidden-delay-type, sequence-always-on, timeouts {10,50}. Oracle (i): the harness encodes every sequence and every O- permutation itself (documented bit layout) and decides prefix-freedom: the parser must accept iff prefix-free, and the compiled table must answer HasValue(the right virtual key) for every encoding and InTrie for every proper prefix. Oracle (ii): for an accepted table one sequence is typed physically (every O- order, left- or right-hand modifier): fully => its virtual key exactly once, no other, sequence mode left, nothing down; hidden modes press no typed key, visible-backspaced sends one backspace per typed character; a proper prefix followed by a key in no sequence, then the whole sequence again without the leader => no virtual key; the full sequence, then the leader again with a proper prefix and a key in no sequence => the virtual key exactly once, and in hidden-delay-type the failed session types exactly its own keys; a pause of T-1 ms between two key presses still completes, T and T+1 do not. Non-trivial: >= 2 sequences share a first key, or an O- group occurs. Distinct: hash of the case.",
             assumptions: vec!["pinned timeout convention: a key press fewer than T ms after the previous one continues the sequence".into()],
             extra: BTreeMap::new(),
         }
@@ -571,7 +641,7 @@ impl TypedProp for C12 {
             exhaustive: false,
             distinct_by_construction: false,
             required_classes: vec![
-                "accepted", "rejected-conflict", "typed-full", "typed-prefix-then-other", "pause-T-1", "pause-T", "pause-T+1", "overlap-group",
+                "accepted", "rejected-conflict", "typed-full", "typed-prefix-then-other", "pause-T-1", "pause-T", "pause-T+1", "two-sessions", "overlap-group",
                 "right-hand-modifier", "right-hand-prefix-in-table",
             ],
             hang_secs: 60,
@@ -589,7 +659,7 @@ impl TypedProp for C12 {
             any::<u16>(),
             any::<u16>(),
             any::<bool>(),
-            0u8..5,
+            0u8..6,
             any::<u16>(),
         )
             .prop_map(|(seqs, mode, timeout, always_on, which, perm, right_hand, scenario, cut)| SCase {
